@@ -10,3 +10,14 @@ open Golem.Props.C05
 #print axioms fold_spec
 #print axioms forEach_spec
 #print axioms void_spec
+#print axioms pipe_delivered_prefix
+#print axioms pipe_complete
+#print axioms pipe_closes
+#print axioms pipe_moves_finite
+#print axioms map_network
+#print axioms flatMap_network
+#print axioms filter_network
+#print axioms partition_network
+#print axioms takeWhile_network
+#print axioms take_network
+#print axioms fold_network
